@@ -350,7 +350,7 @@ func c13Jobs(tier string) []*SeqJob {
 		if c.ncommon > 0 {
 			name += fmt.Sprintf("-%dcommon", c.ncommon+3)
 		}
-		j := &SeqJob{Property: "C13", NoBonus: tier != "thorough", Name: name, Shards: tierInt(tier, 8, 16), Controlled: true}
+		j := &SeqJob{Property: "C13", NoBonus: tier != "thorough", Name: name, Shards: tierInt(tier, len(alphabet), 16), Controlled: true}
 		exec := func(hist []int) (cl, det, key string, steps int) {
 			cl, det = guard(func() (string, string) {
 				a, b, s := c13Run(c.kind, c.ndest, c.queue, c.ncommon, alphabet, hist)
@@ -392,7 +392,7 @@ func c13Jobs(tier string) []*SeqJob {
 		j.Replay = func(ops []string) (string, string) { c, d, _, _ := exec(opIndex(alphabet, ops)); return c, d }
 		jobs = append(jobs, j)
 	}
-	jobs = append(jobs, c13ManyTagSetsJob(tier))
+	jobs = append(jobs, c13ManyTagSetsJob(tier), c13StringLengthJob("C13", tier))
 	return jobs
 }
 
@@ -500,3 +500,141 @@ func c13ManyTagSetsJob(tier string) *SeqJob {
 }
 
 var _ = m3thrift.MetricType_COUNTER
+
+// c13StringLengthJob: every string length from 0 to N in each position of a metric (name, tag name, tag value,
+// a common tag value), both protocols; also a tag set of every width from 0 to 40 tags. Encoders and pools have
+// fixed-size scratch space (64 bytes in the vendored thrift runtime, 10 tags per pooled slice): what is sent must
+// arrive intact at every length, and nothing may panic or hang (the C14 registration of this job).
+func c13StringLengthJob(prop, tier string) *SeqJob {
+	maxLen := tierInt(tier, 140, 300)
+	run := func(kind, pos string, n int) (string, string, int) {
+		s := newFastSink()
+		defer s.close()
+		var rcl, rdet string
+		str := strings.Repeat("s", n)
+		name, tags, common := "m", map[string]string{"k": "v"}, c13CommonTags(0)
+		switch pos {
+		case "name":
+			name = "m" + str
+		case "tagname":
+			tags = map[string]string{"k" + str: "v"}
+		case "tagvalue":
+			tags = map[string]string{"k": str}
+		case "commonvalue":
+			common = map[string]string{"ck": str}
+		case "width":
+			tags = map[string]string{}
+			for i := 0; i < n; i++ {
+				tags[fmt.Sprintf("k%02d", i)] = fmt.Sprintf("v%02d", i)
+			}
+		}
+		caseHorizon = 5000000
+		defer func() { caseHorizon = 0 }()
+		ccl, cdet := controlledCase(0, func() {
+			r, err := m3.NewReporter(m3.Options{HostPorts: []string{s.addr}, Service: "svc", Env: "test", CommonTags: common, Protocol: m3Proto(kind), MaxQueueSize: 64})
+			if err != nil {
+				rcl, rdet = "new-reporter", err.Error()
+				return
+			}
+			r.AllocateCounter(name, cloneTags(tags)).ReportCount(7)
+			r.AllocateGauge(name+"g", cloneTags(tags)).ReportGauge(1.5)
+			// a second, different tag set next to the first (adjacent in every pool)
+			r.AllocateCounter("other", map[string]string{"o": "1"}).ReportCount(9)
+			if err := r.Close(); err != nil {
+				rcl, rdet = "close-error", err.Error()
+			}
+		})
+		where := fmt.Sprintf("[%s] %s of %d", kind, pos, n)
+		if ccl != "" {
+			return ccl, where + ": " + cdet, 4
+		}
+		if rcl != "" {
+			return rcl, where + ": " + rdet, 4
+		}
+		got := map[string]int{}
+		for i, dg := range s.readAvailable(nil) {
+			msg, err := decodeMessage(kind, dg)
+			if err != nil {
+				return "datagram-does-not-decode", fmt.Sprintf("%s: datagram %d (%d bytes): %v", where, i, len(dg), err), 4
+			}
+			for k, v := range common {
+				found := false
+				for _, t := range msg.Batch.CommonTags {
+					found = found || (t.Name == k && t.Value == v)
+				}
+				if !found {
+					return "common-tag-not-intact", fmt.Sprintf("%s: common tag %q missing or changed (%d common tags)", where, k, len(msg.Batch.CommonTags)), 4
+				}
+			}
+			for _, m := range msg.Batch.Metrics {
+				tg := map[string]string{}
+				for _, t := range m.Tags {
+					tg[t.Name] = t.Value
+				}
+				switch {
+				case m.Name == name && m.Value.MetricType == m3thrift.MetricType_COUNTER && m.Value.Count == 7 && tagString(tg) == tagString(tags):
+					got["counter"]++
+				case m.Name == name+"g" && m.Value.MetricType == m3thrift.MetricType_GAUGE && m.Value.Gauge == 1.5 && tagString(tg) == tagString(tags):
+					got["gauge"]++
+				case m.Name == "other" && m.Value.Count == 9 && tagString(tg) == `{"o":"1"}`:
+					got["other"]++
+				case strings.HasPrefix(m.Name, "tally.internal") || strings.HasPrefix(m.Name, "tally_internal"):
+				default:
+					nm := m.Name
+					if len(nm) > 80 {
+						nm = nm[:80] + "..."
+					}
+					return "delivered-not-intact", fmt.Sprintf("%s: a metric arrived that was not sent like that: name %q (%d bytes), %d tags %.300s", where, nm, len(m.Name), len(m.Tags), tagString(tg)), 4
+				}
+			}
+		}
+		for _, k := range []string{"counter", "gauge", "other"} {
+			if got[k] != 1 {
+				return "reported-values-not-delivered-exactly-once", fmt.Sprintf("%s: the %s value arrived %d times", where, k, got[k]), 4
+			}
+		}
+		return "", "", 4
+	}
+	positions := []string{"name", "tagname", "tagvalue", "commonvalue", "width"}
+	j := &SeqJob{Property: prop, Name: "every-string-length-and-tag-set-width", Controlled: true, Shards: tierInt(tier, 2, 4), NoBonus: true}
+	j.Run = func(ctx *SeqCtx) {
+		k := 0
+		for _, kind := range []string{"compact", "binary"} {
+			for _, pos := range positions {
+				top := maxLen
+				if pos == "width" {
+					top = 40
+				}
+				for n := 0; n <= top; n++ {
+					k++
+					if !ctx.Mine(k) {
+						continue
+					}
+					if ctx.Expired() {
+						return
+					}
+					kind, pos, n := kind, pos, n
+					steps := 0
+					cl, det := guard(func() (string, string) { a, b, s := run(kind, pos, n); steps = s; return a, b })
+					ops := []string{kind, pos, fmt.Sprint(n)}
+					ctx.Case(steps, true, func() string { return fmt.Sprint(ops) })
+					ctx.State(fmt.Sprint(ops))
+					if cl != "" {
+						ctx.Fail(cl, det, ops)
+						if ctx.viol != nil {
+							return
+						}
+					}
+				}
+			}
+		}
+		ctx.Alphabet(fmt.Sprintf("string lengths 0..%d as metric name / tag name / tag value / common tag value; tag sets of 0..40 tags; compact and binary", maxLen))
+		ctx.DepthDone(1)
+	}
+	j.Replay = func(ops []string) (string, string) {
+		var n int
+		fmt.Sscan(ops[2], &n)
+		return guard(func() (string, string) { a, b, _ := run(ops[0], ops[1], n); return a, b })
+	}
+	return j
+}
